@@ -148,3 +148,32 @@ Proof.
     (split; [reflexivity|]); intros Hne; destruct (String.eqb (rstrip_slash p) "") eqn:Ee;
     try (apply String.eqb_eq in Ee; contradiction); apply rstrip_no_trailing.
 Qed.
+
+(* ---- full resolution order of build_json_schema for a PASSED context:
+        explicit argument > field of the passed context > default of the effective dialect ---- *)
+Definition opt_str (o: option string) : kv := match o with Some s => KStr s | None => KNone end.
+Definition pick_dialect (D cD: kv) : kv := match D with KNone => cD | _ => D end.
+
+Definition opt_bool (o: option bool) : kv := match o with Some b => KBool b | None => KNone end.
+
+Theorem K9_passed_context : forall cD (car: option bool) cq defs pl wd (ar: option bool) D p,
+  In cD [DRAFT_2020_12; OPEN_API_3_1] -> In D dialects ->
+  let c0 := KNs [("dialect", cD); ("definitions", defs); ("all_refs", opt_bool car); ("ref_prefix", opt_str cq); ("plugins", pl)] in
+  exists c, build_ctx c0 wd (opt_bool ar) D (opt_str p) (KTuple []) = Ok c
+    /\ k_getattr2 c (KStr "ref_prefix") =
+       Ok (KStr (match p with
+                 | Some p' => rstrip_slash p'
+                 | None => match cq with Some q => q | None => pointer_of (pick_dialect D cD) end
+                 end))
+    /\ k_getattr2 c (KStr "all_refs") =
+       Ok (match ar with
+           | Some b => KBool b
+           | None => match car with Some b => KBool b | None => dialect_all_refs (pick_dialect D cD) end end)
+    /\ k_getattr2 c (KStr "dialect") = Ok (pick_dialect D cD)
+    /\ k_getattr2 c (KStr "definitions") = Ok defs.
+Proof.
+  intros cD car cq defs pl wd ar D p HcD HD. unfold dialects in *. simpl in HcD, HD.
+  destruct HcD as [<-|[<-|[]]]; destruct HD as [<-|[<-|[<-|[]]]];
+    destruct car as [cb|]; destruct ar as [b|]; destruct cq as [q|]; destruct p as [p'|];
+    unfold build_ctx; simpl; eexists; repeat split; reflexivity.
+Qed.
